@@ -1091,7 +1091,7 @@ class LLVMFunction(object):
 
             if op in ["fcom_c0", "fcom_c1", "fcom_c2", "fcom_c3"]:
                 arg1 = self.add_ir(expr.args[0])
-                arg2 = self.add_ir(expr.args[0])
+                arg2 = self.add_ir(expr.args[1])
                 fc_name = "fpu_%s" % op
                 fc_ptr = self.mod.get_global(fc_name)
                 casted_args = [
